@@ -562,7 +562,7 @@ func c07Sess(entry string, n []uint64, f []string) string {
 	case "sesspap": // sesspap <id> <data>: the session's own copy of the PAP request parser, in the authenticate phase
 		s, bus := c07Session(ppp.PhaseAuthenticate)
 		if err := s.handlePAPPacket(ppp.PAPAuthReq, uint8(c07Num(n, 0)), data); err != nil {
-			return "err 9"
+			return "err"
 		}
 		if bus.aaaReqs == 0 {
 			return "ok 0"
@@ -571,7 +571,7 @@ func c07Sess(entry string, n []uint64, f []string) string {
 	case "sesschap": // sesschap <id> <data> <expected response>
 		s, bus := c07Session(ppp.PhaseAuthenticate)
 		if err := s.handleCHAPPacket(ppp.CHAPResponse, uint8(c07Num(n, 0)), data); err != nil {
-			return "err 9"
+			return "err"
 		}
 		if bus.aaaReqs == 0 {
 			return "ok 0"
